@@ -295,12 +295,16 @@ Section Model.
                cs st in
     upd_obj st1 o (fun ob => mkObj (o_class ob) (o_fs ob) [] (o_parents ob)).
 
-  (* deletion of a bias as colvarbias::clear() + ~colvardeps() perform it on the dependency state *)
+  (* deletion of a bias as colvarbias::clear() + ~colvardeps() perform it on the dependency state:
+     clear() releases the children's dependencies only when the bias is active (an inactive, e.g. sleeping,
+     bias has already released them in disable(active)) *)
   Definition delete_bias (n : nat) (o : nat) (st : state) : option state :=
-    match free_children_deps n o st with
-    | None => None
-    | Some st1 => Some (remove_all_children o st1)
-    end.
+    if is_enabled st o 0 then
+      match free_children_deps n o st with
+      | None => None
+      | Some st1 => Some (remove_all_children o st1)
+      end
+    else Some (remove_all_children o st).
 
   (* ---- the primitive operations the tie and the invariants range over *)
   Inductive op :=
